@@ -1,5 +1,5 @@
 """C01 -- compiled execution = definitional semantics (CalcSem judged by TLC)."""
-import vlib, gens, semcheck, vmcheck, findings
+import vlib, gens, semcheck, vmcheck, findings, props
 from astlib import walk
 
 
@@ -21,6 +21,10 @@ def run(tier, replay=None):
         fams = [("contexts-depth1", gens.context_sessions(e1, 1), ("value",)),
                 ("contexts-depth2", gens.context_sessions(gens.exprs_depth2(), 200000), ("value",)),
                 ("random-sessions", gens.random_sessions(6000, seed, "c01", first_id=400000), ("value",))]
+    rw = props.c12_families(tier, seed)[-1]          # increment forms, e op e, negated conditions: value-level meaning of the special-cased code shapes
+    inc = [x for x in rw[1] if str(x.get("meta", {}).get("rewrite", "")).startswith("inc")]
+    rest = [x for x in rw[1] if not str(x.get("meta", {}).get("rewrite", "")).startswith("inc")]
+    fams.append((rw[0], inc + (rest[seed % 4::4] if tier == "quick" else rest), rw[2]))
     vs = semcheck.run_families(ck, fams, nontrivial)
     semcheck.binding_selftest(ck, vs)
     # translation validation + instruction-level trace validation on a slice of the same sessions (CalcVM.tla)
